@@ -116,8 +116,8 @@ CLAIMED["C14"] = (
 
 CLAIMED["C15"] = (
     "bounded symbolic execution of geometry.displacement / _displacement_orthogonal_box / _displacement_triclinic_box and the box.py fraction helpers (real modules loaded through the SX rewrite) over exact rationals and reals with z3 (linear integer and nonlinear real arithmetic)",
-    "Bounded model checking of the PERIODIC clauses of the property only. Class S: for 5-6 concrete cells, displacement(0, q) for every grid point q differs from q by a lattice vector, and is the shortest image for orthorhombic cells; the triclinic kernel on EVERY real fraction vector in [0,1)^3 returns one of its eight candidates and no other image is shorter than half the smallest cell height; move_inside_box lands in [0,1) fractional and moves by lattice vectors; fraction conversion is inverse. Class E (real numpy on solver-selected concrete inputs, tolerance 2e-4): distance / angle / dihedral / displacement / index variants / centroid equal their float64 definitions and are unchanged by 25 rigid motions and by the library's own rigid motions (translate / rotate* / align_vectors / orient_principal_components), for every argument-shape combination; periodic index variants equal the coordinate functions with the same box; unit cell <-> box vectors; remove_pbc_from_coord on wrapped chains incl. stacks.",
-    "Trusted: vf/sx/rnp.py, the rational numpy stand-in (counterexamples are replayed on real numpy before they count); exact inverse for numpy.linalg.inv; z3 nlsat. Not decided SYMBOLICALLY (trigonometry, LAPACK, float rounding have no encodable arithmetic): the definitions / invariance / cell conversion / reassembly clauses are exercised on concrete menus only (class E); remove_pbc on whole atom arrays with molecules, per-model boxes in displacement and symbolic cell vectors are not covered at all.",
+    "Bounded model checking of the PERIODIC clauses of the property only. Class S: for 5-6 concrete cells, displacement(0, q) for every grid point q differs from q by a lattice vector, and is the shortest image for orthorhombic cells; the triclinic kernel on EVERY real fraction vector in [0,1)^3 returns one of its eight candidates and no other image is shorter than half the smallest cell height; move_inside_box lands in [0,1) fractional and moves by lattice vectors; fraction conversion is inverse. Class E (real numpy on solver-selected concrete inputs, tolerance 2e-4): distance / angle / dihedral / displacement / index variants / centroid equal their float64 definitions and are unchanged by 25 rigid motions and by the library's own rigid motions (translate / rotate* / align_vectors / orient_principal_components), for every argument-shape combination; periodic index variants equal the coordinate functions with the same box; unit cell <-> box vectors; remove_pbc_from_coord on wrapped chains incl. stacks; remove_pbc on structures with molecules, selections and stacks.",
+    "Trusted: vf/sx/rnp.py, the rational numpy stand-in (counterexamples are replayed on real numpy before they count); exact inverse for numpy.linalg.inv; z3 nlsat. Not decided SYMBOLICALLY (trigonometry, LAPACK, float rounding have no encodable arithmetic): the definitions / invariance / cell conversion / reassembly clauses are exercised on concrete menus only (class E); per-model boxes in displacement and symbolic cell vectors are not covered at all.",
     "DESIGN.md §4 C15")
 
 CLAIMED["C16"] = (
